@@ -1,11 +1,18 @@
 // Reproduction of the overlay findings (properties C10 / C11) against the real crate, public API only.
 // Place as tests/repro_overlay.rs in a checkout of fuse-backend-rs and run `cargo test --offline --test repro_overlay`.
-// Every test FAILS on a tree that has the defect and passes once it is repaired.
+// Every test FAILS on a tree that has the defect and passes once it is repaired.  On 12c2724: o1, o2, o3, o3b, o6, o7 and o4b fail
+// (o4, o5 pass); with findings/overlay_lower_record.patch applied all nine pass (and the crate's own 134 tests still do).
 //
 // C11: "After any sequence of operations, a freshly started overlay over the same upper and lower directories presents exactly the tree
 // the running instance presents: deletions stay deleted, a directory re-created over a deleted lower directory does not resurrect the
 // old contents, and files first modified through the overlay show their complete prior content plus the modification."
 // C10: "No byte, name, mode or extended attribute in any lower layer ever changes."
+//
+// Common cause of o1-o7: OverlayFs::do_rm leaves a whiteout only if `!node.upper_layer_only()`, i.e. only if the node still lists a lower
+// real inode - but copy-up (add_upper_inode(.., true)), creating over a whiteout, mkdir over a whiteout and the scan itself
+// (new_from_real_inodes keeps only the topmost non-directory / stops at an opaque directory) drop the lower real inodes, and a whiteout
+// node never lists any.  do_mkdir's "set opaque" test has the same blind spot.  Obligations: C11.*.lower_record, C11.union.lower_record,
+// C11.do_rm.whiteout_when_lower, C11.do_mkdir.opaque_when_lower (units ovl_ops / ovl_merge); o4b: ovl_ops.write.upper.
 use std::ffi::CString;
 use std::fs;
 use std::io::{Seek, SeekFrom, Write};
